@@ -2,9 +2,14 @@
 //! canonical line per case; the extracted Coq model (`modeldrv`) implements the same protocol.
 mod codes;
 mod header;
+mod meter;
+mod pkt;
 mod text;
 
 use std::io::{BufRead, Write};
+
+#[global_allocator]
+static GLOBAL: meter::Meter = meter::Meter;
 
 fn run_line(line: &str) -> String {
     let toks: Vec<&str> = line.split_ascii_whitespace().collect();
@@ -16,6 +21,14 @@ fn run_line(line: &str) -> String {
         "CODE" => codes::run_code(args),
         "MATCH" => codes::run_match(args),
         "HDR" => header::run_hdr(args),
+        "PARSE" => pkt::run_parse(args),
+        "NAME" => pkt::run_name(args),
+        "RR" => pkt::run_rr(args),
+        "BUILD" => pkt::run_build(args),
+        "RT" => pkt::run_rt(args),
+        "REPARSE" => pkt::run_reparse(args),
+        "BUILDW" => pkt::run_buildw(args),
+        "PARSEM" => pkt::run_parsem(args),
         "PEEK" => header::run_peek(args),
         "FLAGS" => header::run_flags(args),
         "BUILDHDR" => header::run_buildhdr(args),
@@ -38,6 +51,7 @@ fn main() {
             Ok(s) => writeln!(out, "{}", s).unwrap(),
             Err(_) => writeln!(out, "PANIC").unwrap(),
         }
+        out.flush().unwrap();
     }
     out.flush().unwrap();
 }
